@@ -369,4 +369,58 @@ Section C02Model.
       let '(vs, st1) := pl_run freq r0 r0v en ed tol cell st 0%Z run in
       vs :: pl_session freq r0 r0v en ed tol cell st1 rest
     end.
+  (* ---------------------------------------------------------------- arithmetic path variables in Cartesian space
+     (aspath, azpath: colvarcomp_apath.cpp, colvar_arithmeticpath.h).  Every reference frame has its own fitted copy of
+     the group (comp_atoms[i]: centerToReference + rotateToReference on frame i, quaternion q_i); the weighted square
+     deviation of frame i is sum_j w^2 |x_ij - ref_ij|^2 with w = sqrt(1/N). *)
+  Definition frame_wsd (q : Q4) (ref : list V3) (g : list atom) : T :=
+    let w := nsqrt O (one / nofnat (length g)) in
+    lsum (fun pr => (w * w) * v3norm2 O (v3sub O (fst pr) (snd pr))) (combine (fit_positions q ref g) ref).
+  (* ArithmeticPathBase::computeValue on the weighted square deviations d_i (log-sum-exp with the largest exponent
+     subtracted): returns (s, z) *)
+  Definition max_from (m : T) (l : list T) : T := fold_left (fun acc x => if nltb O acc x then x else acc) l m.
+  Fixpoint weighted_index_sum (i : nat) (acc : T) (l : list T) : T :=
+    match l with [] => acc | e :: r => weighted_index_sum (S i) (acc + nofnat i * e) r end.
+  Definition apath_sz (lambda : T) (ds : list T) : T * T :=
+    let es := map (fun d => d * nneg O one * lambda) ds in
+    let mx := match es with [] => zero | e0 :: r => max_from e0 r end in
+    let xs := map (fun e => nexp O (e - mx)) es in
+    let sum0 := lsum (fun x => x) xs in
+    let sum1 := weighted_index_sum 0%nat zero xs in
+    let l0 := mx + nlog O sum0 in
+    let l1 := mx + nlog O sum1 in
+    ((one / nofnat (length ds - 1)) * nexp O (l1 - l0), nneg O one / lambda * l0).
+  (* lambda when none is given: 1 / mean of the squared rmsd between consecutive reference frames (each pair optimally
+     superposed: qs are the optimal quaternions of the centred consecutive frames) *)
+  Definition frame_pair_rmsd (q : Q4) (f1 f2 : list V3) : T :=
+    nsqrt O (sq_dev q (combine (center_pts f1) (center_pts f2)) / nofnat (length f1)).
+  Definition auto_lambda (rmsds : list T) : T :=
+    one / (lsum (fun r => r * r) rmsds / nofnat (length rmsds)).
+  Definition cv_apath (lambda : T) (qs : list Q4) (frames : list (list V3)) (g : list atom) : T * T :=
+    apath_sz lambda (map (fun qf => frame_wsd (fst qf) (snd qf) g) (combine qs frames)).
+  (* ---------------------------------------------------------------- pair lists of selfCoordNum and of coordNum with
+     group2CenterOnly: the same flag/skip logic over another enumeration of position pairs *)
+  Definition pl_build_pts (r0 : T) (r0v : option V3) (en ed : Z) (tol : T) (cell : option V3) (pts : list (V3 * V3)) : list bool :=
+    map (fun pr => nltb O (nneg O (tol * nhalf O)) (switching_raw r0 r0v en ed tol cell (fst pr) (snd pr))) pts.
+  Definition pl_value_pts (pl : list bool) (r0 : T) (r0v : option V3) (en ed : Z) (tol : T) (cell : option V3) (pts : list (V3 * V3)) : T :=
+    lsum (fun t : bool * (V3 * V3) => if fst t then switching r0 r0v en ed tol cell (fst (snd t)) (snd (snd t)) else zero)
+         (combine pl pts).
+  (* selfCoordNum: pairs i < j in loop order *)
+  Fixpoint self_pts (l : list atom) : list (V3 * V3) :=
+    match l with [] => [] | a :: r => map (fun b => (a_pos a, a_pos b)) r ++ self_pts r end.
+  (* group2CenterOnly: every atom of group1 with the centre of mass of group2 *)
+  Definition center_pairs (g1 g2 : list atom) : list (V3 * V3) := let c := com g2 in map (fun a => (a_pos a, c)) g1.
+  (* ---------------------------------------------------------------- eigenvector with differenceVector / normalizeVector
+     (eigenvector::init): the vector used in the projection.  differenceVector: the given coordinates x_vec are centred,
+     optimally superposed (quaternion qd) on the centred reference, and the reference is subtracted; then the vector is
+     scaled by 1/sqrt(sum |v|^2) (normalizeVector) or by 1/sum |v|^2 (differenceVector alone). *)
+  Definition vnorm2_sum (v : list V3) : T := lsum (v3norm2 O) v.
+  Definition eigvec_prepare (difference normalize : bool) (qd : Q4) (ref vec : list V3) : list V3 :=
+    let vc := center_pts vec in
+    let v1 := if difference then map (fun pr => v3sub O (rotate qd (fst pr)) (snd pr)) (combine vc (center_pts ref)) else vc in
+    let inv := one / vnorm2_sum v1 in
+    if normalize then map (v3scale O (nsqrt O inv)) v1
+    else if difference then map (v3scale O inv) v1 else v1.
+  Definition cv_eigenvector_v (q : Q4) (ref v : list V3) (g : list atom) : T :=
+    lsum (fun t => v3dot O (v3sub O (fst (fst t)) (snd (fst t))) (snd t)) (combine (combine (fit_positions q ref g) ref) v).
 End C02Model.
